@@ -87,4 +87,15 @@ theorem action_compare_and_store_is_one_step :
     locks_vikja_State_SetEntityActionIfLatest = ["entityActionMutex.Lock", "defer entityActionMutex.Unlock"] ∧
     writes_vikja_State_SetEntityActionIfLatest = ["entityActions"] := by decide
 
+/-! ### one key of the component store (`Model/AddOnce`, `Props/C12Add`) -/
+
+/-- `Add` and `Delete` look the key up and change the map under one write lock held to the end; no other method of the
+    store that writes the map does so under less -/
+theorem component_add_is_one_critical_section :
+    locks_EntityComponentStore_Add = ["mutex.Lock", "defer mutex.Unlock"] ∧
+    locks_EntityComponentStore_Delete = ["mutex.Lock", "defer mutex.Unlock"] ∧
+    writes_EntityComponentStore_Add = ["entityComponents"] ∧ writes_EntityComponentStore_Delete = ["entityComponents"] ∧
+    calls_in_RealtimeHandler_HandleEntityComponentAdd.contains "session.GetEntityComponents().Add" = true ∧
+    calls_in_RealtimeHandler_HandleEntityComponentDelete.contains "session.GetEntityComponents().Delete" = true := by decide
+
 end Hagall.Gen.Order
